@@ -70,6 +70,7 @@ func init() {
 			sc("wedged-traffic-8-h4", "max=8,h=4,depth=6,canon=exact,mode=getpath,wedge=1,start=ph40:630", 1, 60),
 			sc("healthy-getpath-traffic-8-h4", "max=8,h=4,depth=6,canon=exact,mode=getpath,start=ph40:630", 1, 60),
 			grid(50, 1, 60),
+			grid(64, 1, 60), // a power of two: MaxSize == sketch table length
 			grid(500, 2, 60),
 		},
 		Thorough: []Scenario{
@@ -114,6 +115,8 @@ func init() {
 			sc("wedged-traffic-16-h8", "max=16,h=8,depth=10,canon=exact,mode=getpath,wedge=1,start=ph40:630", 1, 600),
 			sc("healthy-getpath-traffic-16-h8", "max=16,h=8,depth=10,canon=exact,mode=getpath,start=ph40:630", 1, 600),
 			grid(50, 1, 300),
+			grid(64, 1, 300),
+			grid(1024, 4, 300),
 			grid(500, 4, 300),
 			grid(5000, 16, 800),
 		},
